@@ -107,5 +107,6 @@ pub fn checks(tier: Tier) -> Vec<Check> {
         classify: Box::new(classify),
         rule: RULE,
         exhaustive: false,
+            enumerate: None,
     }]
 }
